@@ -160,6 +160,11 @@ pub trait Adapter<V: Vdaf> {
     fn same_type_instance(&self, _other: &Inst) -> Option<V> {
         None
     }
+    /// when the instance was built by a named constructor (`new_sum_vec`, ...): the instance the same parameters
+    /// give through the generic constructor with an explicitly built type. The two must interoperate on the wire.
+    fn generic_twin(&self) -> Option<&V> {
+        None
+    }
     /// the same instance under the algorithm identifier `id ^ xor` (C18 algorithm-identifier skew)
     fn alt_algorithm(&self, _vdaf: &V, _xor: u32) -> Option<V> {
         None
@@ -278,6 +283,8 @@ pub struct P3Ad<C: P3Class, X: prio::vdaf::xof::Xof<S>, const S: usize> {
     pub inst: Inst,
     pub cls: C,
     pub evil: Prio3<Evil<C::T>, X, S>,
+    /// Some when the instance under test came from a named constructor
+    pub generic: Option<Prio3<C::T, X, S>>,
     pub modulus: u128,
     pub fsize: usize,
 }
@@ -409,6 +416,9 @@ where
         let typ = C::make(other)?;
         Prio3::new(other.n, other.proofs, self.evil.algorithm_id(), typ).ok()
     }
+    fn generic_twin(&self) -> Option<&Prio3<C::T, X, S>> {
+        self.generic.as_ref()
+    }
     fn alt_algorithm(&self, vdaf: &Prio3<C::T, X, S>, xor: u32) -> Option<Prio3<C::T, X, S>> {
         use prio::vdaf::Vdaf;
         Prio3::new(self.inst.n, self.inst.proofs, vdaf.algorithm_id() ^ xor, self.cls.typ().clone()).ok()
@@ -503,14 +513,16 @@ fn go_p3x<C: P3Class, X: prio::vdaf::xof::Xof<S> + 'static, const S: usize, Vis:
 where
     <<C::T as Flp>::Field as FieldElementWithInteger>::Integer: IntoU128 + TryFrom<u128>,
 {
+    let was_named = named.is_some();
     let vdaf = match named {
         Some(r) => r.map_err(vdaf_err)?,
         None => Prio3::new(inst.n, inst.proofs, alg, cls.typ().clone()).map_err(vdaf_err)?,
     };
     let evil = Prio3::new(inst.n, inst.proofs, vdaf.algorithm_id(), Evil(cls.typ().clone())).map_err(vdaf_err)?;
+    let generic = if was_named { Prio3::new(inst.n, inst.proofs, vdaf.algorithm_id(), cls.typ().clone()).ok() } else { None };
     let modulus = <<C::T as Flp>::Field as FieldElementWithInteger>::modulus().to_u128();
     let fsize = <<C::T as Flp>::Field as prio::field::FieldElement>::ENCODED_SIZE;
-    let ad = P3Ad { inst: inst.clone(), cls, evil, modulus, fsize };
+    let ad = P3Ad { inst: inst.clone(), cls, evil, generic, modulus, fsize };
     Ok(vis.visit::<_, _, S>(&vdaf, &ad))
 }
 
